@@ -105,6 +105,11 @@ def detect (post : Probe) (get : Str → Probe) (url : Str) : String × Nat :=
   let r := probeGets get (probeUrls url)
   (if a && r.1 then resBoth else if a then resHttp else if r.1 then resSse else resUnknown, r.2)
 
+/-- … with the outer guard: when the HTTP client cannot even be created nothing is probed and the
+answer is `unknown` -/
+def detectOr (clientOk : Bool) (post : Probe) (get : Str → Probe) (url : Str) : String × Nat × Bool :=
+  if clientOk then ((detect post get url).1, (detect post get url).2, true) else (resUnknown, 0, false)
+
 /-! ## `try_http_with_sse_fallback` -/
 
 inductive Choice where
@@ -129,5 +134,21 @@ def fallback (post : Probe) (get : Str → Probe) (url : Str) : Choice × Bool :
   if validUrl httpUrlPrefixes url then
     (if httpChosenFor.contains (detect post get url).1 then .http (rstripSet httpUrlRstrip.toList url) else sseBranch url, true)
   else (sseBranch url, false)
+
+/-! ## `try_sse_with_fallback` (`transports/sse/sse_client.py`) -/
+
+inductive TrySse where
+  /-- `sse_client(SSEParameters(url=…))` -/
+  | client (url : Str)
+  /-- a new exception with migration guidance, raised from the original one -/
+  | guidance
+  /-- the original exception -/
+  | reraise
+  deriving DecidableEq, Repr
+
+/-- `errText` = `str(e)` of the exception `SSEParameters(...)` raised (third-party wording: a parameter) -/
+def trySse (url errText : Str) : TrySse :=
+  if validUrl sseUrlPrefixes url then .client (rstripSet sseUrlRstrip.toList url)
+  else if anyIn guidanceNeedles (lower errText) then .guidance else .reraise
 
 end Verif.Model.Detect
